@@ -403,7 +403,6 @@ def _zero_target(kind, spec):
 
 def op_zero(res, qkind, qspec, tkind, tspec, mag):
     """dimensionless values: numbers, dimensionless quantities and unit ratios convert by the exact ratio"""
-    cu = E()["cu"]
     qspec = tuple(qspec) if qspec else None
     tspec = tuple(tspec) if tspec else None
     fq = Fr(1) if qkind != "ratio" else A.base(qspec[0], qspec[1]).f / A.base(qspec[0], qspec[2]).f
@@ -1068,7 +1067,8 @@ def op_tile(res, fam, kind, ia, ib, reps):
 
 
 def op_uniform(res, fam, kind, idxs):
-    cu, np = E()["cu"], E()["np"]
+    """uniform(): every element keeps its physical value and all end up in the unit of the first"""
+    cu = E()["cu"]
     name, ev, units = _fam(fam)
     els = [float(_HV[p]) * units[i][1] for p, i in enumerate(idxs)]
     ref = [float(_HV[p] * units[i][2].f) for p, i in enumerate(idxs)]
